@@ -480,6 +480,9 @@ func typedC19(alone, conc *CRecord, pkg string) []problem {
 		}
 	}
 	for i, s := range conc.Sides {
+		if s.LabelsForeign != "" {
+			add("the labels a request reads back from the Labeler are its own", fmt.Sprintf("delivery %d: %s", i, clip(s.LabelsForeign, 400)))
+		}
 		if s.Delivered && s.Panic != "" {
 			add("server does not panic", fmt.Sprintf("delivery %d: panic: %s", i, clip(s.Panic, 300)))
 		}
